@@ -23,6 +23,9 @@ def run(tier, replay=None):
         ("MC_Transport", "XF_RearmPerRead.cfg", {"workers": 2}, "fail"),
         ("MC_Transport", "XF_NoCloseOnError.cfg", {"workers": 2}, "fail"),
         ("MC_Transport", "XF_DeadlineBeforeLock.cfg", {"workers": 2}, "fail"),
+        ("MC_Discovery", "MC_Discovery.cfg", {"workers": 8, "heap": "4g"}, "pass"),
+        ("MC_Discovery", "XF_DiscoveryHandOff.cfg", {"workers": 2}, "fail"),
+        ("MC_Discovery", "XF_DiscoveryRearm.cfg", {"workers": 2}, "fail"),
     ])
     groups = ["G_mixed_fixed", "G_mixed_eph", "G_udp_fixed", "G_tcp_eph", "G_flood_fixed", "G_flood_eph"]
     n = 36 if tier == "quick" else 400
